@@ -42,7 +42,7 @@ DOCS = [
 MUTATORS = ["absolute", "shapes_to_paths", "expand_shorthand", "apply_style_attributes", "resolve_use", "simplify", "clip_to_viewbox",
             "evenodd_to_nonzero_winding", "round_floats", "remove_empty_subpaths", "remove_unpainted_shapes", "remove_nonsvg_content",
             "remove_processing_instructions", "remove_anonymous_symbols", "remove_title_meta_desc", "set_attributes", "remove_attributes",
-            "set_viewbox",
+            "set_viewbox", "set_root_paint",
             "normalize_opacity", "resolve_nested_svgs", "topicosvg"]
 QUERIES = ["shapes", "bounding_box", "view_box", "tostring", "checkpicosvg", "breadth_first"]
 MODELLED = {"absolute", "shapes_to_paths", "expand_shorthand", "apply_style_attributes", "resolve_use", "simplify", "evenodd_to_nonzero_winding",
@@ -62,6 +62,9 @@ def call(svg, name, mode):
         return svg.set_attributes((("fill", "purple"), ("data-x", "1")), xpath="//svg:g | /svg:svg", **kw)
     if name == "set_viewbox":
         return svg.set_attributes((("viewBox", "0 0 40 40"),), **kw)
+    if name == "set_root_paint":
+        # the default xpath (the root alone) with inheritable paint: what cached shapes inherited must follow
+        return svg.set_attributes((("fill", "red"), ("stroke", "blue"), ("stroke-width", "2")), **kw)
     if name == "remove_attributes":
         return svg.remove_attributes(("opacity", "width"), xpath="//svg:g | /svg:svg", **kw)
     if name == "topicosvg":
@@ -214,7 +217,7 @@ def search(ctx, disagreements):
     # anything an object could remember about its document must follow a later change of the document:
     # query / consumer, then a change of the root's geometry attributes, then a consumer again
     triples = [[a, b, c] for a in [("view_box", "query"), ("bounding_box", "query"), ("clip_to_viewbox", "inplace"), ("simplify", "inplace")]
-               for b in [("set_viewbox", "inplace"), ("set_viewbox", "copy"), ("remove_attributes", "inplace"), ("set_attributes", "inplace")]
+               for b in [("set_viewbox", "inplace"), ("set_viewbox", "copy"), ("remove_attributes", "inplace"), ("set_attributes", "inplace"), ("set_root_paint", "inplace")]
                for c in [("clip_to_viewbox", "inplace"), ("clip_to_viewbox", "copy"), ("simplify", "inplace"), ("topicosvg", "inplace"), ("view_box", "query")]]
     for src in DOCS:
         jobs.append((src, triples))
